@@ -1,15 +1,15 @@
 (* C37 — The SQL proxy forwards only queries whose topics are all allowed.
    Only statements closed by [exact]; proofs live in proofs/SqlProxyProofs.v.
    [string_laws] are the interplay laws of Go's strings.Fields / TrimSpace /
-   TrimSuffix / Join and ASCII lower-casing, stated on the modelled functions; they
+   TrimSuffix / Join, stated on the modelled functions (the fourth law used,
+   Fields commutes with ASCII lower-casing, is proved: fields_lower); they
    are premises (not axioms), evaluated on every generated text by the
    correspondence check (model side) and by the harness (real Go functions). *)
-From KS Require Import lib.Base model.SqlParse model.SqlProxy proofs.SqlProxyProofs.
+From KS Require Import lib.Base model.SqlParse model.SqlProxy proofs.SqlParseCaseProofs proofs.SqlProxyProofs.
 Open Scope Z_scope.
 
 Definition string_laws : Prop :=
   (forall s, fields (trim_semi (trim_space s)) = drop_semi (fields s)) /\
-  (forall s, fields (ascii_lower s) = map ascii_lower (fields s)) /\
   (forall s, fields (join32 (fields s)) = fields s) /\
   (forall s, session s = true ->
      match tokens s with [] => True | f :: _ => f = kw_set \/ f = kw_reset end).
@@ -25,7 +25,7 @@ Theorem C37_forward_sound : forall mp parse_ok,
   forall a ttl maxn ms x,
   In (Forwarded x) (run mp parse_ok a (new_cache ttl maxn) ms) -> upstream_ok mp parse_ok a x.
 Proof.
-  intros mp parse_ok Hnil [L1 [L2 [L3 L4]]]. exact (forward_sound mp parse_ok Hnil L1 L2 L3 L4).
+  intros mp parse_ok Hnil [L1 [L3 L4]]. exact (forward_sound mp parse_ok Hnil L1 fields_lower L3 L4).
 Qed.
 Print Assumptions C37_forward_sound.
 
@@ -34,8 +34,8 @@ Theorem C37_cache_sound : string_laws ->
   forall m1 m2, cache_key m1 = cache_key m2 ->
   tokens m1 = tokens m2 /\ token_topics (tokens m1) = token_topics (tokens m2).
 Proof.
-  intros [L1 [L2 [L3 _]]] m1 m2 H.
-  pose proof (cache_key_tokens L1 L2 L3 m1 m2 H) as E. split; [exact E|now rewrite E].
+  intros [L1 [L3 _]] m1 m2 H.
+  pose proof (cache_key_tokens L1 fields_lower L3 m1 m2 H) as E. split; [exact E|now rewrite E].
 Qed.
 Print Assumptions C37_cache_sound.
 
